@@ -423,5 +423,6 @@ fn tcp_script(t: &[&str], salt: u64) -> Option<crate::e2e::TcpScript> {
         target: kv(t, "target").unwrap_or("up").to_owned(),
         cut_after: kv(t, "cut").and_then(|x| x.parse().ok()),
         reset: kv(t, "reset").map(|x| x.to_owned()),
+        early: kv(t, "close") == Some("app-early"),
     })
 }
